@@ -59,8 +59,10 @@ impl ExtendedPublicKey {
     pub fn from_string_impl(xpub_string: &str) -> Result<Self, BSVErrors> {
         let mut cursor = Cursor::new(bs58::decode(xpub_string).into_vec()?);
 
-        // Skip the first 4 bytes "xprv"
-        cursor.set_position(4);
+        // The first 4 bytes are the "xpub" version
+        if cursor.read_u32::<BigEndian>()? != XPUB_VERSION_BYTE {
+            return Err(BSVErrors::GenericError("Extended public key has the wrong version bytes".into()));
+        }
 
         let depth = cursor.read_u8()?;
         let mut parent_fingerprint = vec![0; 4];
